@@ -94,6 +94,8 @@ def attr_out_spec(a, opts):
     delim = '{' if a['vt'] == 'expr' else q
     prefix = multi_get(opts.get('markup.valuePrefix'), a['name'], a['multiple'])
     if prefix and value:
+        if not a['exact']:
+            return (name, '{' if opts.get('jsx.enabled') else delim, ('unclaimed',), False)
         value = ('%s.%s' if is_ident(value) else "%s['%s']") % (prefix, value)
         if opts.get('jsx.enabled'):
             delim = '{'
@@ -200,6 +202,10 @@ def compare_attrs(exp, got):
         if e[3]:
             if tuple(e[:3]) != tuple(g):
                 return 'expected attribute %r, output has %r' % (e[:3], g)
+        elif e[2] == ('unclaimed',):
+            # an empty class mention together with a value prefix: only name and delimiter are claimed
+            if e[0] != g[0] or e[1] != g[1]:
+                return 'expected attribute %r, output has %r' % (e[:2], g)
         else:
             if e[0] != g[0] or e[1] != g[1] or isinstance(g[2], tuple) != isinstance(e[2], tuple):
                 return 'expected attribute %r, output has %r' % (e[:3], g)
